@@ -554,6 +554,7 @@ def plan(tier, seed):
     n = 16
     shards = [{"part": "rule-enum", "len": L, "i": i, "n": n, "bound": f"Rule histories len<={L} (no dedup)"} for i in range(n)]
     shards.append({"part": "rule-bfs", "bound": "Rule BFS to fixpoint"})
+    shards.append({"part": "rule-tla", "bound": "TLC RuleBuilder model + conformance replay"})
     shards.append({"part": "rule-perturb", "bound": "Rule complete chains +- one call"})
     Ll = 5 if tier == "quick" else 6
     shards.append({"part": "layer-bfs", "depth": 8 if tier == "quick" else 11, "bound": "LayerRule BFS"})
@@ -566,7 +567,7 @@ def plan(tier, seed):
         shards.append(dict(s, part="unknown", bound="unknown names " + s["bound"]))
     req = ["rule:MUST_ERROR:ERR", "rule:COMPLETE:PASS", "rule:COMPLETE:FAIL", "layer:MUST_ERROR:ERR", "layer:COMPLETE:PASS",
            "layer:COMPLETE:FAIL", "diagram:MUST_ERROR:ERR", "unknown-name:ERR", "regex-nomatch:ERR", "entry-options:ERR",
-           "entry-path:ERR", "entry-valid:OK", "empty-spec:ERR"]
+           "entry-path:ERR", "entry-valid:OK", "empty-spec:ERR", "rule-tla:MUST_ERROR", "rule-tla:COMPLETE"]
     return {"shards": shards, "require_nonzero": req}
 
 
@@ -615,6 +616,12 @@ def run_shard(shard, tier, seed):
             if _DIAG_DIR:
                 remove_scratch(_DIAG_DIR)
                 _DIAG_DIR = None
+    elif part == "rule-tla":
+        import sys
+
+        from .. import conform_rule_tla
+
+        conform_rule_tla.run(res, tier, sys.modules[__name__])
     elif part == "entry":
         entry_point_cases(res)
     elif part == "empty":
